@@ -807,8 +807,8 @@ def main(ck):
     ]
     ck.partial = {
         "lognormal_*_partial, normal_*_partial, gg_*_partial, vonmises_*_partial":
-            "inverse and monotonicity laws proven relative to an abstract strictly monotone Phi / P(m,.) / V_kappa "
-            "with inverse (scipy's contract); that scipy's special functions meet the contract, and pdf = d/dx cdf "
+            "inverse, monotonicity, range [0,1] and limit 0 / 1 laws proven relative to an abstract monotone Phi / "
+            "P(m,.) / V_kappa with inverse, range and limits (scipy's contract); that scipy's special functions meet the contract, and pdf = d/dx cdf "
             "for these families, is observed numerically on the explored points only",
         "GammaScipyDistribution, BetaScipyDistribution (ScipyDistribution subclasses by scipy_dist_name), "
         "LogNormalNormFitDistribution":
